@@ -1,4 +1,5 @@
 import PyribsModel.Dqd
+import PyribsProofs.C08
 import Mathlib.Tactic.Linarith
 import Mathlib.Tactic.Ring
 import Mathlib.Algebra.Order.Field.Rat
@@ -10,7 +11,9 @@ included), every coefficient row, every selection / restart rule, every feedback
 
 * T19.1 `branch_in_span`, `branch_zero_jacobian`, `branch_rank_one`, `gae_ask_rows`, `normaliseRow_dir`,
         `normaliseRow_zero`
-* T19.2 `objective_coeff_nonneg`, `gopCoeffs_rest`, `gopBranch_in_span`, `gopObjOnly_in_span`
+* T19.2 `objective_coeff_nonneg`, `gopCoeffs_rest`, `gopBranch_in_span`, `gopObjOnly_in_span`,
+        `gop_askDqd_returns_stored`, `gop_parents_preserved`, `gop_ask_from_returned`, `gop_ask_rows_spec`,
+        `gop_ask_unbounded`, `gop_ask_in_bounds`
 * T19.3 `gae_refuses_ask`, `gae_refuses_tell`, `gae_allows_ask`, `gae_allows_tell`, `gae_tellDqd_sets`,
         `gae_before_gradients`, `gae_jac_persistent`, `gop_refuses_ask`, `gop_allows_ask`, `gop_ask_pure`,
         `gop_tell_noop`, `gop_before_gradients`, `gop_jac_persistent`
@@ -316,6 +319,120 @@ theorem gop_jac_persistent (c : Gop.Cfg) : ∀ (ops : List Gop.Op) (s : Gop.St),
   | [], _, h => h
   | op :: ops, s, h => gop_jac_persistent c ops _ (gop_step_jac c s op h)
 
+/-! ## T19.2 (emitter level) `ask` branches from the rows `ask_dqd` **returned** -/
+
+/-- `ask_dqd` clips the perturbed parents, and what it stores is exactly what it returns (so the caller's
+gradients are evaluated at the points `ask` will branch from) -/
+theorem gop_askDqd_returns_stored (c : Gop.Cfg) (s : Gop.St) (raw : List Vec) :
+    Gop.step c s (.askDqd raw) = ({ s with parents := raw.map (Gop.clipV c) }, .rows (raw.map (Gop.clipV c))) ∧
+    (Gop.step c s (.askDqd raw)).2 = .rows (Gop.step c s (.askDqd raw)).1.parents := ⟨rfl, rfl⟩
+
+def isGopAskDqd : Gop.Op → Bool
+  | .askDqd _ => true
+  | _ => false
+
+/-- nothing but `ask_dqd` changes the stored parents -/
+theorem gop_parents_preserved (c : Gop.Cfg) (s : Gop.St) (op : Gop.Op) (h : isGopAskDqd op = false) :
+    (Gop.step c s op).1.parents = s.parents := by
+  cases op with
+  | askDqd raw => simp [isGopAskDqd] at h
+  | tellDqd jacs norms =>
+    simp only [Gop.step]
+    split
+    · rfl
+    · split
+      · split <;> rfl
+      · rfl
+  | ask z => rw [gop_ask_pure]
+  | tell => rfl
+
+/-- positional description of the rows of `ask` (measure gradients on) -/
+theorem gop_ask_rows_spec (c : Gop.Cfg) : ∀ (ps : List Vec) (Js : List Mat) (zs : List (Nat → Rat)),
+    ps.length = zs.length → Js.length = zs.length →
+    (Gop.askRows c ps Js zs).length = zs.length ∧
+    ∀ i (hp : i < ps.length) (hJ : i < Js.length) (hz : i < zs.length) (hr : i < (Gop.askRows c ps Js zs).length),
+      (Gop.askRows c ps Js zs)[i] = Gop.clipV c (vadd ps[i] (linComb c.m Js[i] (gopCoeffs zs[i])))
+  | [], [], [], _, _ => ⟨rfl, fun i hp => absurd hp (by simp)⟩
+  | [], _, _ :: _, h, _ => by simp at h
+  | _ :: _, _, [], h, _ => by simp at h
+  | _, [], _ :: _, _, h => by simp at h
+  | _, _ :: _, [], _, h => by simp at h
+  | p :: ps, J :: Js, z :: zs, h1, h2 => by
+    obtain ⟨hl, hi⟩ := gop_ask_rows_spec c ps Js zs (by simpa using h1) (by simpa using h2)
+    refine ⟨by simp [Gop.askRows, hl], ?_⟩
+    intro i hp hJ hz hr
+    cases i with
+    | zero => simp [Gop.askRows, gopBranch_in_span]
+    | succ i =>
+      simp only [Gop.askRows, List.getElem_cons_succ]
+      exact hi i (by simpa using hp) (by simpa using hJ) (by simpa using hz) (by simpa [Gop.askRows] using hr)
+
+/-- positional description of the rows of `ask` (measure gradients off): `clip(parent + σ_g·∇f)` -/
+theorem gop_ask_rows_obj_spec (c : Gop.Cfg) : ∀ (ps : List Vec) (Js : List Mat), Js.length = ps.length →
+    (Gop.askRowsObj c ps Js).length = ps.length ∧
+    ∀ i (hp : i < ps.length) (hJ : i < Js.length) (hr : i < (Gop.askRowsObj c ps Js).length),
+      (Gop.askRowsObj c ps Js)[i] = Gop.clipV c (vadd ps[i] (smul c.σg (Js[i] 0)))
+  | [], [], _ => ⟨rfl, fun i hp => absurd hp (by simp)⟩
+  | [], _ :: _, h => by simp at h
+  | _ :: _, [], h => by simp at h
+  | p :: ps, J :: Js, h => by
+    obtain ⟨hl, hi⟩ := gop_ask_rows_obj_spec c ps Js (by simpa using h)
+    refine ⟨by simp [Gop.askRowsObj, hl], ?_⟩
+    intro i hp hJ hr
+    cases i with
+    | zero => simp [Gop.askRowsObj, (gopObjOnly_in_span p J c.σg).1]
+    | succ i =>
+      simp only [Gop.askRowsObj, List.getElem_cons_succ]
+      exact hi i (by simpa using hp) (by simpa using hJ) (by simpa [Gop.askRowsObj] using hr)
+
+/-- **the caller's view**: after `ask_dqd` returned `ps`, any calls other than `ask_dqd` (here: the
+`tell_dqd` that stored `Js`), `ask` emits, row by row, `clip(psᵢ + combination of the gradients)` — it
+branches from the rows that were *returned*, not from any other point -/
+theorem gop_ask_from_returned (c : Gop.Cfg) (s : Gop.St) (raw : List Vec) (ops : List Gop.Op)
+    (hops : ∀ op ∈ ops, isGopAskDqd op = false) (Js : List Mat) (zs : List (Nat → Rat))
+    (hJ : (Gop.run c (Gop.step c s (.askDqd raw)).1 ops).jac = some Js) :
+    let ps := raw.map (Gop.clipV c)
+    let s' := Gop.run c (Gop.step c s (.askDqd raw)).1 ops
+    (Gop.step c s (.askDqd raw)).2 = .rows ps ∧ s'.parents = ps ∧
+    (c.mg = true → zs.length = ps.length → (Gop.step c s' (.ask zs)).2 = .rows (Gop.askRows c ps Js zs)) ∧
+    (c.mg = false → (Gop.step c s' (.ask zs)).2 = .rows (Gop.askRowsObj c ps Js)) := by
+  have hpar : ∀ (ops : List Gop.Op) (t : Gop.St), (∀ op ∈ ops, isGopAskDqd op = false) →
+      (Gop.run c t ops).parents = t.parents := by
+    intro ops
+    induction ops with
+    | nil => intro t _; rfl
+    | cons op ops ih =>
+      intro t h
+      simp only [Gop.run]
+      rw [ih _ (fun o ho => h o (by simp [ho])), gop_parents_preserved c t op (h op (by simp))]
+  have hp := hpar ops (Gop.step c s (.askDqd raw)).1 hops
+  have hp' : (Gop.run c (Gop.step c s (.askDqd raw)).1 ops).parents = raw.map (Gop.clipV c) := hp
+  refine ⟨rfl, hp', ?_, ?_⟩
+  · intro hmg hlen
+    generalize Gop.run c (Gop.step c s (.askDqd raw)).1 ops = t at hJ hp' ⊢
+    simp only [Gop.step, hJ, hmg, if_true]
+    rw [hp', if_neg (not_not.mpr hlen)]
+  · intro hmg
+    generalize Gop.run c (Gop.step c s (.askDqd raw)).1 ops = t at hJ hp' ⊢
+    simp [Gop.step, hJ, hmg, hp']
+
+/-- without bounds the final clip is the identity: the row is parent + combination itself -/
+theorem gop_ask_unbounded (c : Gop.Cfg) (hlo : ∀ k, c.lo k = none) (hhi : ∀ k, c.hi k = none) (v : Vec) :
+    Gop.clipV c v = v := by
+  funext k
+  simp [Gop.clipV, hlo k, hhi k, Emit.clip1, Emit.minHi, Emit.maxLo]
+
+/-- with bounds every coordinate of every emitted row (and of every returned parent) is inside them -/
+theorem gop_ask_in_bounds (c : Gop.Cfg) (v : Vec) (k : Nat) (h : C08.Ordered (c.lo k) (c.hi k)) :
+    C08.InB (c.lo k) (c.hi k) (Gop.clipV c v k) := C08.clip_in_bounds _ _ _ h
+
+/-- a parent that `ask_dqd` returned is a fixed point of the clip (clipping is idempotent), so feeding the
+returned rows back through the model's `ask_dqd` reproduces them -/
+theorem gop_clip_idempotent (c : Gop.Cfg) (v : Vec) (h : ∀ k, C08.Ordered (c.lo k) (c.hi k)) :
+    Gop.clipV c (Gop.clipV c v) = Gop.clipV c v := by
+  funext k
+  exact C08.clip_of_inB _ _ _ (C08.clip_in_bounds _ _ _ (h k))
+
 /-! ## T19.4 no selected solution ⇒ the solution point stays -/
 
 theorem wmean_zero_parents (w : Nat → Rat) (P : Nat → Vec) : wmean 0 w P = vzero := rfl
@@ -479,7 +596,7 @@ theorem nonvacuous :
 /-- GradientOperatorEmitter: refusal, then |c₀| on the objective gradient (coefficient row (−1, 1) gives
 +1·∇f + 1·∇m), and the objective-only form -/
 theorem nonvacuous_gop :
-    let c : Gop.Cfg := ⟨2, 2, true, 1 / 2, false, 0⟩
+    let c : Gop.Cfg := ⟨2, 2, true, 1 / 2, false, 0, fun _ => none, fun _ => none⟩
     let s1 := (Gop.step c Gop.init (.askDqd [ofList [0, 0]])).1
     let r0 := Gop.step c s1 (.ask [ofList [-1, 1]])
     let s2 := (Gop.step c s1 (.tellDqd [[[3, 4], [1, 0]]] [fun _ => 0])).1
@@ -487,6 +604,20 @@ theorem nonvacuous_gop :
     (match r0.2 with | .error .runtime => true | _ => false) = true ∧
     (match r1.2 with | .rows rs => rs.map (toList 2) | _ => []) = [[4, 4]] ∧
     toList 2 (gopObjOnly (ofList [1, 1]) (matOfLists [[3, 4], [1, 0]]) (1 / 2)) = [5 / 2, 3] := by
+  decide +kernel
+
+/-- with bounds [-1, 1]²: the perturbed parent (3, 0) is returned (and stored) as (1, 0); with measure
+gradients off and σ_g = ½, ∇f = (−1, 4) the emitted row is clip((1, 0) + ½·(−1, 4)) = (½, 1) — **not**
+clip((3, 0) + ½·(−1, 4)) = (1, 1), which branching from the unclipped point would give -/
+theorem nonvacuous_gop_bounded :
+    let c : Gop.Cfg := ⟨2, 2, false, 1 / 2, false, 0, fun _ => some (-1), fun _ => some 1⟩
+    let r1 := Gop.step c Gop.init (.askDqd [ofList [3, 0]])
+    let s2 := (Gop.step c r1.1 (.tellDqd [[[-1, 4], [0, 0]]] [fun _ => 0])).1
+    let r2 := Gop.step c s2 (.ask [])
+    (match r1.2 with | .rows rs => rs.map (toList 2) | _ => []) = [[1, 0]] ∧
+    r1.1.parents.map (toList 2) = [[1, 0]] ∧
+    (match r2.2 with | .rows rs => rs.map (toList 2) | _ => []) = [[1 / 2, 1]] ∧
+    toList 2 (Gop.clipV c (gopObjOnly (ofList [3, 0]) (matOfLists [[-1, 4], [0, 0]]) (1 / 2))) = [1, 1] := by
   decide +kernel
 
 end Pyribs.C19
